@@ -19,8 +19,8 @@ STRATEGIES = ["build", "block", "bfs", "dfs", "scc", "attr"]
 def cases(tier, seed):
     cl = [("rand", 3), ("rand-wide", 2), ("dense-neg", 3), ("gadget", 4), ("inputs", 2), ("overlap-maa", 0.3)]
     if tier == "quick":
-        return std_cases(seed, "C01", 1500, cl, 7, exh2=True, models_nmax=9)
-    return std_cases(seed, "C01", 20000, cl, 9, exh2=True, models_nmax=12)
+        return std_cases(seed, "C01", 4500, cl, 7, exh2=True, models_nmax=9)
+    return std_cases(seed, "C01", 30000, cl, 9, exh2=True, models_nmax=12)
 
 
 def gate(agg):
@@ -76,6 +76,7 @@ def run_case(case):
             continue
         res.c("strategy_runs")
         per_attr = {}
+        holders = {}
         for i, ss in seeds.items():
             if not sd.node_data(i)["expanded"]:
                 res.v(f"seeds-for-unexpanded-node:{strat}", f"node {i}", ctx=ctx)
@@ -88,12 +89,26 @@ def run_case(case):
             for a in hit:
                 if a is not None:
                     per_attr[a] = per_attr.get(a, 0) + 1
+                    holders.setdefault(a, []).append(i)
         for a in atts:
             k = per_attr.get(a, 0)
             if k == 0:
                 res.v(f"attractor-without-seed:{strat}", f"attractor {ref.states(a)[:8]} ({a.bit_count()} states) has no seed in the diagram", ctx=ctx)
             elif k > 1:
-                res.v(f"attractor-with-{min(k, 2)}plus-seeds:{strat}", f"attractor {ref.states(a)[:8]} has {k} seeds", ctx=ctx)
+                # mechanism: is one reporting node a strict subspace of another one without being reachable from it
+                # (diagram lacks a path between nested nodes), or something else?
+                import networkx as nx
+                from ..ref import issub
+
+                hs = holders.get(a, [])
+                mech = "other"
+                for x in hs:
+                    for y in hs:
+                        if x != y:
+                            sx, sy = ref.sp(sd.node_data(x)["space"]), ref.sp(sd.node_data(y)["space"])
+                            if sx != sy and issub(sy, sx) and y not in nx.descendants(sd.dag, x):
+                                mech = "subspace-node-not-a-descendant"
+                res.v(f"attractor-with-{min(k, 2)}plus-seeds:{strat}:{mech}", f"attractor {ref.states(a)[:8]} has {k} seeds (nodes {hs})", ctx=ctx)
             else:
                 res.c("attractors_matched")
     if res.nontrivial and case.get("rs", 0) % 40 == 0:
